@@ -138,6 +138,13 @@ Next == Validate \/ FlipFlag \/ Project \/ ComputeJobs \/ Split \/ (\E j \in 1..
         \/ Concat \/ MissingPairs \/ AssignIds \/ RestoreFlag
 Spec == Init /\ [][Next]_vars
 
+(* liveness: under weak fairness of the call's own steps every call ends (returned or rejected), every chunk *)
+(* is eventually worked on, and a switched tokenizer flag is eventually switched back                        *)
+FairSpec == Spec /\ WF_vars(Next)
+Terminates == <>(pc \in {"returned", "rejected"})
+EveryChunkWorked == [](pc = "work" => <>(\A j \in DOMAIN wres : wres[j].done))
+FlagEventuallyRestored == [](flag # flag0 => <>(flag = flag0))
+
 -----------------------------------------------------------------------------
 ResSet == {result[k] : k \in DOMAIN result}
 NoDup == Cardinality(ResSet) = Len(result)
